@@ -33,6 +33,26 @@ CHECKS["C12"] = dict(
     technique="Coq proof (invariant by induction over operation lists; 256-case finite facts by vm_compute) + vm_compute correspondence on random histories",
     design="7/C12")
 
+CHECKS["C09"] = dict(
+    text="Machine-checked proof (Coq): reads through the buffering StreamReader equal strict reads of the concatenated bytes "
+         "for every chunking and read sequence (including when they fail); the 'Data:' separator search returns the stream "
+         "after the first occurrence for every partition; a DAP4 response cut at any offset fails or decodes to the complete "
+         "result. Models compared with pydap on generated chunkings/truncations; every chunk size 1..17 + random partitions "
+         "through a re-chunking middleware and every truncation offset of every generated DAP2/DAP4 body are run on the implementation.",
+    note=TB + "DAP2 decoder truncation safety rests on the strict reader (theorem) plus the exhaustive-offset runs; "
+              "literal-pattern model of re.search.",
+    technique="Coq proof (induction over chunk lists with a window invariant; prefix lemmas) + vm_compute correspondence + exhaustive truncation offsets",
+    design="7/C09")
+CHECKS["C10"] = dict(
+    text="Machine-checked proof (Coq): for both byte orders, every DMR length < 2^24, every list of variables of the ten atomic "
+         "numeric types with in-range values and EVERY partition of the payload into chunks, pydap's DAP4 unpacking (model) "
+         "returns exactly the served values; element codecs round-trip. The model is compared with UNPACKDAP4DATA on responses of "
+         "an independent reference server (groups <= 3, shared/anonymous dims, interleaved declarations, chunks > 2^16 bytes), "
+         "whose bytes are in turn compared with the Gallina wire-format SPEC.",
+    note=TB + "DMR text -> declared variable list is pydap's DMR parser (C11); little-endian host; DAP4 indexing is covered by C02.",
+    technique="Coq proof (big/little-endian word round trips, chunk reassembly by induction on the partition) + vm_compute correspondence against a reference DAP4 encoder",
+    design="7/C10")
+
 NOT_YET = {
 }
 
